@@ -5,6 +5,8 @@ import (
 	"runtime"
 	"sort"
 	"sync"
+	"sync/atomic"
+	"time"
 )
 
 // Lock shims. The rewriter (rule "locks") turns x.Lock()/Unlock()/RLock()/RUnlock() into calls to these.
@@ -76,10 +78,24 @@ func wakeAll(m any) {
 	}
 }
 
+// LazyLock (macro level, optional): when it returns true for a site, the goroutine about to take that write lock first
+// sleeps one millisecond of virtual time - everybody else runs until blocked before the lock is taken (one fixed
+// "the locker is late" schedule; whatever the code started before asking for the lock gets to run first). LazyPending
+// tells the harness that such a sleeper exists, i.e. that a quiescent bubble is not yet a settled one.
+var LazyLock func(site string) bool
+var lazyPending atomic.Int32
+
+func LazyPending() bool { return lazyPending.Load() > 0 }
+
 func Lock(site string, m locker) {
 	if s := curSched(); s != nil {
 		s.lock(site, m, false)
 		return
+	}
+	if f := LazyLock; f != nil && f(site) {
+		lazyPending.Add(1)
+		time.Sleep(time.Millisecond)
+		lazyPending.Add(-1)
 	}
 	for !m.TryLock() {
 		parkOn(m, site)
